@@ -549,6 +549,18 @@ func (e *SEnv) ident(name string) Val {
 			}
 		}
 	}
+	// variable captured by a closure: read through its cell
+	if e.fr != nil && e.fr.fn == e.fn && !e.inSpecFunc {
+		for i, fv := range e.fn.FreeVars {
+			if fv.Name() == name && i < len(e.fr.freeVars) {
+				cell := e.fr.freeVars[i]
+				if pt, ok := types.Unalias(fv.Type()).Underlying().(*types.Pointer); ok {
+					return e.load(e.cur, cell.S[0], cell.S[1], pt.Elem())
+				}
+				return cell
+			}
+		}
+	}
 	// local variable of the function
 	if e.fr != nil && e.fr.fn == e.fn && !e.inSpecFunc {
 		// a local kept in memory: its address is a local matter, its content is
@@ -979,6 +991,12 @@ func (e *SEnv) call(x *SCall) Val {
 				return Val{T: types.NewInterfaceType(nil, nil), S: []Term{tInt(int64(vc.p.typeID(v.T))), v.S[0], "0"}}
 			}
 			e.fail("iface(x): pointer, map or integer expected")
+		case "cur":
+			// cur(x): x without its old()/at() tag, so that what it points to is
+			// read in the current state
+			v := arg(0)
+			v.Old = nil
+			return v
 		case "isnil":
 			return boolVal(tEq(arg(0).S[0], "0"))
 		case "ref":
